@@ -119,6 +119,23 @@ def h8():
     return Envelope, [(Envelope, {"id": 1}), (Envelope, {"id": 2, "spare": {"token": "t"}})]
 
 
+def h9():
+    # an array-valued property that is not the first one: while one thread is inside the items, the other is between
+    # binding its properties and building the result key of the array property
+    class Post(Object):
+        title = Property(String(), required=True)
+        tags = Property(Array(String(minLength=1)), required=True)
+
+    return Post, [(Post, {"title": "a", "tags": ["x"]}), (Post, {"title": "b", "tags": []})]
+
+
+def h10():
+    # two format checks at once: one well-formed date-time, one whose only defect is a zone name the checker's parser
+    # does not know (interpreter-global state touched by a checker, e.g. warning filters, is shared between the threads)
+    el = String(format="date-time")
+    return el, [(el, "2020-01-01T10:00:00Z"), (el, "2020-01-01 10:00:00 EST")]
+
+
 def r4():
     el = Element(items=[Integer(), String()], additionalItems=Number())
     return el, [(el, [1, "a", 2]), (el, [1, 2])]
@@ -175,7 +192,7 @@ def h1x2calls():
     return tree, [[calls[0], (tree, {"k": 0, "b": "t"})], [calls[1], (tree, {"k": 2, "b": "u", "zz": 1})]]
 
 
-HARNESSES = {"T1": t1, "T2": t2, "T3": t3, "H3s": h3s, "H5s": h5s, "H1": h1, "H2": h2, "H3": h3, "H4": h4, "H5": h5, "H6": h6, "H7": h7, "H8": h8, "R4": r4, "R5": r5, "R6": r6, "H1x3": h1x3, "H1x2": h1x2calls}
+HARNESSES = {"T1": t1, "T2": t2, "T3": t3, "H3s": h3s, "H5s": h5s, "H1": h1, "H2": h2, "H3": h3, "H4": h4, "H5": h5, "H6": h6, "H7": h7, "H8": h8, "H9": h9, "H10": h10, "R4": r4, "R5": r5, "R6": r6, "H1x3": h1x3, "H1x2": h1x2calls}
 
 
 def make(hname):
@@ -268,6 +285,13 @@ def determinism_probe(hname, gran):
     return outs[0] == outs[1], n
 
 
+# scheduling points only where one validator / element / property hands over to the next (entry of these functions)
+CALLS = ("calls", ("__call__", "__init__", "__new__", "bind", "evolve", "scoped", "property", "construct", "validate", "_validate", "__getitem__", "__properties__"))
+
+
+FORMAT_LINES = ("lines", ("format.py", "string.py"))
+
+
 def plan(tier, seed):
     # warm-up (regex cache, lazy imports), then determinism probes
     for h in HARNESSES:
@@ -280,6 +304,8 @@ def plan(tier, seed):
         for h in ("H3s", "H5s", "H4", "H1x3", "H7", "H8"):
             configs.append((h, "switch", 1, None))
         configs.append(("T3", "switch", 2, 6))
+        configs.append(("H9", CALLS, 2, None))
+        configs.append(("H10", FORMAT_LINES, 2, None))
     else:
         for h in ("H1", "H2", "H3", "H4", "H5", "H6", "H7", "H8", "H1x2", "T2", "R4", "R5", "R6"):
             configs.append((h, "line", 1, None))
@@ -288,6 +314,11 @@ def plan(tier, seed):
         configs.append(("T1", "switch", 2, None))
         configs.append(("T3", "switch", 2, None))
         configs.append(("T2", "switch", 2, None))
+        configs.append(("H9", CALLS, 2, None))
+        configs.append(("H9", "switch", 1, None))
+        configs.append(("H4", CALLS, 2, None))
+        configs.append(("H10", FORMAT_LINES, 3, None))
+        configs.append(("H10", "line", 1, None))
     items = []
     meta = {"configs": [], "exhaustive": True}
     for h, gran, bound, sl in configs:
